@@ -89,8 +89,11 @@ func kvRenew(t *testing.T) {
 			t.Fatalf("miniredis shard: %v", err)
 		}
 		// warm the shared wrapper client of this address
-		if !redis.New(kvShards[i].Addr()).Ping() {
-			t.Fatalf("cannot reach shard %d", i)
+		for n := 0; !redis.New(kvShards[i].Addr()).Ping(); n++ {
+			if n > 50 {
+				t.Fatalf("cannot reach shard %d", i) // inconclusive run, not a verdict
+			}
+			time.Sleep(100 * time.Millisecond)
 		}
 	}
 	if kvRefSrv, err = miniredis.Run(); err != nil {
